@@ -6,6 +6,7 @@ import CobyqaVerif.Model.Radius
 import CobyqaVerif.Model.Constraints
 import CobyqaVerif.Model.Reduce
 import CobyqaVerif.Model.StepSpec
+import CobyqaVerif.Model.Cache
 import CobyqaVerif.Gen.Settings
 /-!
 Line-protocol driver: `lake env lean --run Driver.lean < requests > answers`.
@@ -421,6 +422,38 @@ def doStepSpec (hdr vals : List Nat) : String :=
   | _ => "bad-op"
 end stepspec
 
+/-! `cache n | rec rec ...`  records: `0` = a call of build_system, `1 b1 .. bn` = the live points become these bit
+patterns (in-place mutation).  Answer: one letter per call, `h` (served from the entry) or `m` (recomputed). -/
+def keyEq (a b : List Nat) : Bool :=
+  a.length == b.length && (a.zip b).all fun (x, y) =>
+    match keyOfBits x, keyOfBits y with
+    | .val p, .val q => p == q
+    | _, _ => false
+
+def parseCacheOps (n : Nat) : List Nat → Nat → Option (List (Cache.Op (List Nat)))
+  | [], _ => some []
+  | _, 0 => none
+  | 0 :: rest, fuel + 1 => (parseCacheOps n rest fuel).map (Cache.Op.query :: ·)
+  | 1 :: rest, fuel + 1 =>
+    if rest.length < n then none else
+    let k := rest.take n
+    (parseCacheOps n (rest.drop n) fuel).map (Cache.Op.mutate (fun _ => k) :: ·)
+  | _, _ => none
+
+def doCache (hdr vals : List Nat) : String :=
+  match hdr with
+  | [n] =>
+    match vals with
+    | 1 :: rest =>
+      if rest.length < n then "bad-op" else
+      match parseCacheOps n (rest.drop n) (vals.length + 1) with
+      | some ops =>
+        let r := Cache.run keyEq (fun k => k) ({ key := rest.take n, cache := none } : Cache.Obj (List Nat) (List Nat)) ops
+        "ok " ++ String.join (r.2.map fun (_, hit) => if hit then "h" else "m")
+      | none => "bad-op"
+    | _ => "bad-op"
+  | _ => "bad-op"
+
 def handle (line : String) : String :=
   match line.splitOn "|" with
   | [h, v] =>
@@ -440,6 +473,7 @@ def handle (line : String) : String :=
         | "stepspec" => doStepSpec hdr vals
         | "buildx" => doBuildX hdr vals
         | "axis" => doAxis vals
+        | "cache" => doCache hdr vals
         | "splitlin" => doSplitLin vals
         | "splitnl" => doSplitNl hdr vals
         | "remove" => doRemove hdr vals
